@@ -98,6 +98,9 @@ type Engine struct {
 	observed  []string
 	symOrder  bool
 	bufText   map[*Obj]*JSONText // bytes.Buffers that hold JSON text segments (jsonstream.go)
+	yamlNodes    map[*Obj]*Agg    // *yaml.Node objects handed to custom unmarshalers -> document node
+	yamlTypeErrs map[int][]string // ErrV ids that are yaml.TypeError values (collected, not fatal)
+	tempFiles    map[string]*Agg  // files created by zzverif.TempFile -> document
 	excuses   map[string]*Term
 	strLits   map[string]*Term
 	strTerms  []*Term
